@@ -101,33 +101,65 @@ def run(ctx, rep):
         rep.machinery('ANCHOR-MISSING table::alloc_cluster')
     else:
         d = Deps(AC)
-        scans = [(b, t) for b, t in AC.calls() if (t.get('callee') or '').endswith('table::find_free_cluster')]
+        # the scans: calls of the range search (by its name on the pinned tree, or - when it was renamed / made transparent -
+        # the per-width `find_free*` calls it consists of); (start, end) are the last two arguments
+        scans = [(b, t) for b, t in AC.calls() if (t.get('callee') or '').rsplit('::', 1)[-1].startswith('find_free') and len(t['args']) >= 3]
         lab = label_results(AC)
-        ok = False
-        why = 'fewer than two scans'
-        if len(scans) >= 2:
-            (b1, t1), (b2, t2) = scans[0], scans[1]
-            info = lab.get(b1)
-            # the second scan lies on the error side of the first one, covers [2, start) and is guarded by start > 2
-            on_err = info is not None and info['status'] == 'labelled' and edge_dominates(AC, info['err'], b2)
-            lo = op_const(t2['args'][2])
-            lo_ok = lo is not None and lo.get('val') == 2 or ('constpath', 'fatfs::table::RESERVED_FAT_ENTRIES') in d.of_operand(t2['args'][2])
-            # the upper bound of the second leg is the first leg's start itself (the end is exclusive): same provenance,
-            # no further arithmetic on it
-            t_hi, t_lo = d.of_operand(t2['args'][3]), d.of_operand(t1['args'][2])
-            hi_ok = bool(t_hi & t_lo - {('const', 2)}) and \
-                {tk for tk in t_hi if tk[0] == 'op'} <= {tk for tk in t_lo if tk[0] == 'op'} and \
-                {tk for tk in t_hi if tk[0] == 'call'} <= {tk for tk in t_lo if tk[0] == 'call'}
-            guard = False
+        from analyses import place_prefix_type
+
+        def fail_edges(b):
+            """edges taken when the scan at b found nothing: its Err edge, or the None arm of a test of its Ok payload"""
+            info = lab.get(b)
+            out = set()
+            if info is not None and info['status'] == 'labelled':
+                out |= set(info['err']) | set(info.get('none') or ())
             for bi in AC.reachable():
                 tt = AC.blocks[bi]['term']
-                if tt['k'] == 'switch':
-                    src = switch_source(AC, bi)
-                    if src and src['kind'] == 'binop' and src['op'] in ('Gt', 'Ne', 'Lt', 'Ge') and edge_dominates(
-                            AC, {(bi, x) for x in AC.succ(bi)} - {(bi, x) for x in (zero_targets(tt) if src['op'] in ('Gt', 'Ne') else nonzero_targets(tt))}, b2):
-                        guard = True
+                if tt['k'] != 'switch':
+                    continue
+                src = switch_source(AC, bi)
+                if src and src.get('kind') == 'discr' and ('callsite', b) in d.of_place(src['place']):
+                    pty = place_prefix_type(AC, src['place'], len(src['place']['p']))
+                    if pty and pty.get('path') == 'core::option::Option':
+                        out |= {(bi, x) for v, x in tt['targets'] if v == 0}
+            return out
+
+        all_fail = set()
+        for b, t in scans:
+            all_fail |= fail_edges(b)
+        first_reach = AC.reach_from([0], cut_edges=all_fail)
+        primary = [(b, t) for b, t in scans if b in first_reach]
+        secondary = [(b, t) for b, t in scans if b not in first_reach]
+        ok = False
+        why = 'fewer than two scans'
+        if primary and secondary:
+            on_err = lo_ok = hi_ok = guard = True
+            for b2, t2 in secondary:
+                lo = op_const(t2['args'][-2])
+                lo_ok = lo_ok and (lo is not None and lo.get('val') == 2 or
+                                   ('constpath', 'fatfs::table::RESERVED_FAT_ENTRIES') in d.of_operand(t2['args'][-2]))
+                # the upper bound of the second leg is the first leg's start itself (the end is exclusive): same provenance,
+                # no further arithmetic on it
+                t_hi = d.of_operand(t2['args'][-1])
+                h = False
+                for b1, t1 in primary:
+                    t_lo = d.of_operand(t1['args'][-2])
+                    if bool(t_hi & t_lo - {('const', 2)}) and \
+                            {tk for tk in t_hi if tk[0] == 'op'} <= {tk for tk in t_lo if tk[0] == 'op'} and \
+                            {tk for tk in t_hi if tk[0] == 'call'} <= {tk for tk in t_lo if tk[0] == 'call'}:
+                        h = True
+                hi_ok = hi_ok and h
+                g = False
+                for bi in AC.reachable():
+                    tt = AC.blocks[bi]['term']
+                    if tt['k'] == 'switch':
+                        src = switch_source(AC, bi)
+                        if src and src['kind'] == 'binop' and src['op'] in ('Gt', 'Ne', 'Lt', 'Ge') and edge_dominates(
+                                AC, {(bi, x) for x in AC.succ(bi)} - {(bi, x) for x in (zero_targets(tt) if src['op'] in ('Gt', 'Ne') else nonzero_targets(tt))}, b2):
+                            g = True
+                guard = guard and g
             ok = on_err and lo_ok and hi_ok and guard
-            why = 'second scan on error side=%s, lower bound 2=%s, upper bound = first scan start=%s, guarded by start>2=%s' % (
+            why = 'second scan on the nothing-found side=%s, lower bound 2=%s, upper bound = first scan start=%s, guarded by start>2=%s' % (
                 on_err, lo_ok, hi_ok, guard)
         rep.oblige('W2', AC.name, ok=ok, nontrivial=True, sample={'fn': AC.name, 'why': why})
         if not ok:
